@@ -4,7 +4,7 @@
 From Coq Require Import Extraction ExtrOcamlBasic.
 From RV Require Import Base.
 From RV.Model Require Import Utf8 Indexer CodePointSet Insn Fold IR Optimizer Unfold Emit Pike BT Exec Api.
-From RV.Spec Require Import LitSpec.
+From RV.Spec Require Import LitSpec Spec.
 
 Definition ix_utf8 : indexer := utf8_indexer fold_code_point.
 Definition ix_ascii : indexer := ascii_indexer.
@@ -25,5 +25,9 @@ Definition drv_all_const (text : list N) (ms : list amatch) (c : list N) :=
 Definition drv_lit_occ (icase unicode : bool) (s : list N) (t : list N) :=
   lit_occurrences (fun c => if icase then fold_code_point c unicode else c) s t.
 
-Extraction "model.ml" optimize emit drv_lit_occ drv_bt drv_pk fold_code_point
+Definition drv_es_first (unicode : bool) (inp : list N) (fuel : nat) (r : regex) (ngroups start : nat) :=
+  es_first (fun c => fold_code_point c unicode) (fun c => if unicode then unfold_char c else unfold_uppercase_char c)
+           inp fuel r ngroups start.
+
+Extraction "model.ml" drv_es_first optimize emit drv_lit_occ drv_bt drv_pk fold_code_point
   group named_group named_groups groups replace replace_all drv_ident drv_first_ident drv_all_const escape.
